@@ -860,6 +860,20 @@ impl<F: Fam> Ctx<F> {
                     problems.push(format!("a | b (order {}): len {}, == rebuilt {} / {}, a.is_subset {} , is_superset(b) {}", order, u.len(), u == rebuilt, rebuilt == u, x.is_subset(&u), u.is_superset(y)));
                 }
             }
+            // Debug of the lazy iterators lists the whole result (it clones, consumes nothing)
+            {
+                let lens = [
+                    ("union", crate::iters::debug_numbers(&x.union(y)), mx.union(my).count()),
+                    ("intersection", crate::iters::debug_numbers(&x.intersection(y)), mx.intersection(my).count()),
+                    ("difference", crate::iters::debug_numbers(&x.difference(y)), mx.difference(my).count()),
+                    ("symmetric_difference", crate::iters::debug_numbers(&x.symmetric_difference(y)), mx.symmetric_difference(my).count()),
+                ];
+                for (name, got, want) in lens {
+                    if got != want {
+                        problems.push(format!("Debug of {} (order {}) lists {} elements, expected {}", name, order, got, want));
+                    }
+                }
+            }
             // cloned lazy iterators continue independently from any point, and size_hint brackets
             // what is still to come
             {
